@@ -3,5 +3,5 @@ CONSTANTS
   Segs = {"up", "dot", "nil", "d", "e", "x", "sx", "xs", "sup", "ups"}
   MaxSegs = 3
   NFiles = 3
-INVARIANTS ConfinedInv ClampInv
+INVARIANTS ConfinedInv ClampInv NearestInv
 CHECK_DEADLOCK FALSE
